@@ -205,7 +205,7 @@ theorem inv_stepC (P : Params) (hB : 0 < P.B) (s s' : St) (h : RInv P s)
         have hq' : s'.q = q' := by split at hs <;> injection hs with hs <;> subst hs <;> rfl
         have hp' : s'.p = s.p := by split at hs <;> injection hs with hs <;> subst hs <;> rfl
         have hc' : s'.c = .getting := by
-          split at hs <;> injection hs with hs <;> subst hs <;> simp [hcp]
+          split at hs <;> injection hs with hs <;> subst hs <;> simp
         have ht' : s'.taken = s.taken ++ [Item.frame x] := by
           split at hs <;> injection hs with hs <;> subst hs <;> rfl
         have hb' : s'.batch.length < P.B := by
@@ -265,9 +265,9 @@ theorem inv_stepC (P : Params) (hB : 0 < P.B) (s s' : St) (h : RInv P s)
               refine ⟨by simp [h4], by simpa using hB, ?_, ?_⟩
               · simp only [takenSpec, delivered, List.append_nil, hflat]
                 rw [ht]; simp [takenSpec, hcp, delivered]
-              · simp only [hp]
+              · show _ ∨ _
                 right
-                refine ⟨by simp, h4, trivial, ?_⟩
+                refine ⟨by simp, h4, rfl, ?_⟩
                 rw [hflat, h5]
           · exact absurd hcp h3
 
@@ -496,11 +496,11 @@ theorem binv_step (P : Params) (hB : 0 < P.B) (s s' : St) (hb : s.batch.length <
               rcases hbm with hbm | rfl
               · exact hfull b hbm
               · exact hlen
-            · intro hc; simp [hcp] at hc
+            · intro hc; simp at hc
           · injection e with e; subst e
             constructor
             · intro _; exact hfull
-            · intro hc; simp [hcp] at hc
+            · intro hc; simp at hc
         | sentinel =>
           simp only at e
           injection e with e; subst e
@@ -608,7 +608,7 @@ theorem upto_prefix (P : Params) (i : Nat) (h1 : P.start ≤ i) (h2 : i ≤ stop
 theorem count_sentinel_map (fs : List Payload) : (fs.map Item.frame).count Item.sentinel = 0 := by
   induction fs with
   | nil => rfl
-  | cons x r ih => simp [List.count_cons, ih]
+  | cons x r ih => simp [ih]
 
 theorem allFrames_count {q : List Item} (h : allFrames q) : q.count Item.sentinel = 0 := by
   unfold allFrames at h; rw [h]; exact count_sentinel_map _
